@@ -387,6 +387,8 @@ let pack_flight (name_of : output -> string) (outs : output list) (flight : stri
   List.concat_map (fun recs ->
       let names = String.split_on_char '+' recs in
       if names = ["CCS"] then (match find "CCS" with Some _ -> [RCCS true] | None -> [RCCS true])
+      else if names = ["HR"] then [RHs [HMsg MHelloRequest]]        (* a HelloRequest in a handshake record of its own *)
+      else if names = ["HX"] then [RHs [HUnknown]]                  (* a handshake record with an unknown message type *)
       else
         let items = List.concat_map (fun nm -> match find nm with Some (OHs m) -> [HMsg m] | _ -> []) names in
         if items = [] then [] else [RHs items])
@@ -574,6 +576,16 @@ let run_pd (f : string array) : string =
   | "gmcc" -> show_digest gm_client_certificate_verify_digest
   | _ -> "SKIP"
 
+(* ---- C15 PE cases: ecdheKeyAgreement.processServerKeyExchange at byte level ------------------------------------- *)
+let run_pe (f : string array) : string =
+  let vers = hexn f.(2) and is_rsa = (f.(3) = "1") in
+  let k = match f.(4) with "rsa" -> PK_RSA | "ecdsa" -> PK_ECDSA | "sm2" -> PK_SM2 | _ -> PK_Other in
+  let algs = u16list_of f.(5) and pt = (f.(6) = "1") in
+  let key = bytes_of_hex (if Array.length f > 7 then f.(7) else "-") in
+  match ecdhe_processServerKeyExchange vers is_rsa k algs (fun _ -> pt) key with
+  | Ok _ -> "any"          (* the length logic passes: the outcome is the signature check's *)
+  | Err _ -> "err" | Panic -> "PANIC" | Hang -> "HANG"
+
 let handle (f : string array) : string =
   match f.(0) with
   | "S" -> run_script f.(2) f.(3) f.(4)
@@ -586,6 +598,7 @@ let handle (f : string array) : string =
   | "AM" -> run_am f.(2) f.(3) f.(4) f.(5) f.(6) f.(8)
   | "PA" -> run_pa f.(2) f.(3) f.(4) f.(5)
   | "PD" -> run_pd f
+  | "PE" -> run_pe f
   | "PW" -> run_pw f
   | "PM" -> run_pm f.(2) f.(3) (if Array.length f > 4 then f.(4) else "-")
   | "PK" ->
